@@ -47,12 +47,13 @@ theorem C15_spec_meaning (signed : Bool) (md : Nat) (s : Bytes) (r : Int) :
   specParse_some_iff signed md s r
 
 /-- **exactness.** An accepted string denotes the rational `± N / 10^f` (`N` the integer written by all its digits, `f` the
-number of fraction digits) and the result `r` satisfies `|r| · 10^f = N · 10^decimals`, i.e. `r = value · 10^decimals`
-exactly — never rounded, truncated or mis-scaled -/
+number of fraction digits) and the result `r` satisfies `|r| · 10^f = N · 10^decimals`, i.e. `|r| = |value| · 10^decimals`
+exactly — never rounded, truncated or mis-scaled — and the SIGN of `r` is the sign written: a negative result needs a leading `-`,
+and a leading `-` never gives a positive result (`"-5"` is not read as `+5`; `"-0"` gives `0`) -/
 theorem C15_parse_exact (signed : Bool) (d : Denom) (s : Bytes) (r : Int) (h : fromStrIn signed s d = .ok r) :
     ∃ ip fp, Lit (splitSign s).2 ip fp ∧ fp.length ≤ decimals d ∧
       r.natAbs * 10 ^ fp.length = natOfDigits (ip ++ fp) * 10 ^ decimals d ∧
-      (r < 0 → (splitSign s).1 = true) ∧ ((splitSign s).1 = false → 0 ≤ r) := by
+      (r < 0 → (splitSign s).1 = true) ∧ ((splitSign s).1 = true → r ≤ 0) := by
   obtain ⟨_, _, ip, fp, hl, hf, _, h4⟩ := (specParse_some_iff _ _ _ _).mp ((C15_parse_iff signed d s r).mp h)
   refine ⟨ip, fp, hl, hf, ?_, ?_, ?_⟩
   · have hr : r.natAbs = natOfDigits (ip ++ fp) * 10 ^ (decimals d - fp.length) := by
@@ -65,9 +66,19 @@ theorem C15_parse_exact (signed : Bool) (d : Denom) (s : Bytes) (r : Int) (h : f
     · omega
     · exact h5
   · intro hs
-    rcases h4 with ⟨_, h5⟩ | ⟨h5, _, _⟩
-    · omega
+    rcases h4 with ⟨h5, _⟩ | ⟨_, _, h5⟩
     · rw [hs] at h5; cases h5
+    · omega
+
+/-- the same as one equation: the result is the written sign times its magnitude -/
+theorem C15_parse_sign (signed : Bool) (d : Denom) (s : Bytes) (r : Int) (h : fromStrIn signed s d = .ok r) :
+    r = (if (splitSign s).1 then -1 else 1) * (r.natAbs : Int) := by
+  obtain ⟨_, _, _, _, _, h1, h2⟩ := C15_parse_exact signed d s r h
+  cases hs : (splitSign s).1 with
+  | true => have := h2 hs; simp only [if_true]; omega
+  | false =>
+    have : ¬ r < 0 := fun hn => by rw [h1 hn] at hs; cases hs
+    simp only [Bool.false_eq_true, if_false]; omega
 
 /-- `Amount::from_str_in` never returns more than `2^63 − 1` (nor anything negative) -/
 theorem C15_unsigned_cap (d : Denom) (s : Bytes) (r : Int) (h : fromStrIn false s d = .ok r) :
@@ -127,7 +138,9 @@ theorem C15_overflow_iff (d : Denom) (s ip fp : Bytes) (hlen : s.length ≤ 50) 
       omega
     · exact h
 
-/-- **formatting is the exact expansion.** `to_string_in` of an `Amount` (any u64) / `SignedAmount` (any i64, incl. `i64::MIN`)
+/-- **formatting is the exact expansion.** `to_string_in` of an `Amount` (any u64) / `SignedAmount` (any i64, incl. `i64::MIN`;
+the statement is for EVERY integer `a` — non-negative for the unsigned type — a superset of what the two types can hold; outside
+u64 / i64 the model function `toStringIn` describes nothing in the Rust and the statement is merely also true there)
 is the specified string: sign, canonical integer part `|a| div 10^decimals` (non-empty), and iff `decimals > 0` a point and
 exactly `decimals` digits; all digits together write `|a|`, so the string denotes `a / 10^decimals` exactly -/
 theorem C15_fmt_exact (signed : Bool) (d : Denom) (a : Int) (hu : signed = false → 0 ≤ a) :
@@ -212,7 +225,9 @@ theorem C15_suffix_reduces (signed : Bool) (d : Denom) (a : Int) (hu : signed = 
   simp only
   rw [(display_roundtrip d).1]
 
-/-- **round trip, both directions, every magnitude.** Parsing a formatted amount (any u64 / any i64) returns a value iff
+/-- **round trip, both directions, every magnitude.** Parsing a formatted amount (any integer of magnitude `< 2^64`, non-negative for
+the unsigned type: every u64 and every i64, and for `signed = true` also the integers `2^63 … 2^64−1` and `−(2^64−1) … −2^63−1` that
+`SignedAmount` cannot hold — a superset of the types) returns a value iff
 the amount has magnitude at most `2^63 − 1`, and then it returns exactly that amount — never another value -/
 theorem C15_parse_fmt_iff (signed : Bool) (d : Denom) (a : Int) (hu : signed = false → 0 ≤ a) (hr : a.natAbs < 2 ^ 64) (r : Int) :
     (fromStrIn signed (toStringIn signed a d) d = .ok r ↔ (r = a ∧ a.natAbs ≤ 2 ^ 63 - 1)) ∧
@@ -246,14 +261,19 @@ theorem C15_parse_fmt_out_of_range (signed : Bool) (d : Denom) (a : Int) (hu : s
     · have := ((C15_parse_fmt_iff signed d a hu hr r).2.mp hr').2; omega
     · exact he
 
-/-- **the formatter is injective** (per denomination; any two amounts of the type): distinct amounts never share a text -/
+/-- **the formatter is injective** (per denomination; any two integers, non-negative for the unsigned type — a superset of the
+amounts of the type): distinct amounts never share a text -/
 theorem C15_fmt_injective (signed : Bool) (d : Denom) (a b : Int) (ha : signed = false → 0 ≤ a) (hb : signed = false → 0 ≤ b)
     (h : toStringIn signed a d = toStringIn signed b d) : a = b := by
   rw [(C15_fmt_exact signed d a ha).1, (C15_fmt_exact signed d b hb).1] at h
   exact specFormat_injective _ a b h
 
-/-- **`Display`** (the denomination is hard-wired to `Monero`) is the specified string with 12 decimals and the suffix `xmr`,
-and `FromStr` reads it back for every magnitude up to `2^63 − 1` -/
+/-- **`Display`**, as modelled: `AmtText.display signed a` is by definition `toStringWithDenomination signed a .Monero`, so this is
+`C15_fmt_suffix_exact` / `C15_parse_fmt_suffix` at `d = .Monero` — a corollary, NOT an independent result. That the two `Display` impls
+(amount.rs 414-419, 729-734) hard-wire `Denomination::Monero` and consult no formatter flag is read off the source by inspection
+(the translator only REPORTS whether the two bodies still have that token shape: `Gen.extracted_shape_{Amount,SignedAmount}_Display_fmt`);
+the tie to the code is the harness: `c15_display` (`format!("{}")`) and `c15_display_flags` (precision, width, alignment, fill, `+`, `#`
+flags must print the same text as plain `{}`), both compared with this model and with the independent specification -/
 theorem C15_display_roundtrip (signed : Bool) (a : Int) (hu : signed = false → 0 ≤ a) :
     display signed a = Spec.Decimal.specFormatWithDenomination .Monero a ∧
     (a.natAbs ≤ 2 ^ 63 - 1 → fromStrWithDenomination signed (display signed a) = .ok a) :=
@@ -268,20 +288,25 @@ theorem C15_tables_total :
   · intro d; cases d <;> exact ⟨_, rfl⟩
   · intro d; cases d <;> exact ⟨_, rfl, by decide⟩
 
-/-- **the parser's constants and arithmetic sites, as read from the current source**: the length test is `s.len() > 50`
-(observed on all-zero literals, cross-checked with the literal in the source), the three arithmetic sites call
-`checked_mul`, `checked_add`, `checked_mul`, and both `from_str_in` bodies still have the reviewed shape (cap
-`> i64::max_value() as u64` for both types, `negative` refused by the unsigned type). These are the hand-copied constants
-`50`, `U64MAX`, `I64MAX` of `Model/AmountText.lean` tied to the regenerated `Gen` values -/
+/-- **the parser's length cap and arithmetic sites in `Gen`.** `Gen.amtMaxLen` is OBSERVED on every run (the longest accepted
+all-zero literal, cross-checked with the literal of `s.len() > N` in the source), so the hand-copied `50` of the model and of the
+specification is tied to the current code by this theorem. The three arithmetic sites are read syntactically: when
+`parse_signed_to_piconero` contains exactly three calls of std integer methods of the kinds mul, add, mul in this order (`Gen.extracted_amtParseSites`
+shows what was found), `Gen.amtParseMul/Add/RescaleMul` ARE those methods and a `wrapping_*` / `saturating_*` site refutes this
+theorem; when the function is written differently (`10 * value`, `overflowing_mul`, a helper, another order, …) the translator falls
+back to the REVIEWED rows `checked_mul, checked_add, checked_mul` with an EXTRACT-NOTE, this theorem holds trivially, and the tie of
+the arithmetic to the code is the differential run (families `magnitude`, `prefix`, `wrapsmall`, `wrapfrac` of harness/src/c15.rs).
+Nothing is stated about the shapes of the two `from_str_in` bodies: `Gen.shape_*` is the reviewed `true` on every tree (see the header
+of Props/C18.lean); what the translator read is reported in `Gen.extracted_shape_{Amount,SignedAmount}_from_str_in` -/
 theorem C15_parser_constants :
     Gen.amtMaxLen = 50 ∧ Gen.amtMaxLen = Spec.Decimal.maxLen ∧
-    Gen.amtParseMul = some .checked_mul ∧ Gen.amtParseAdd = some .checked_add ∧ Gen.amtRescaleMul = some .checked_mul ∧
-    Gen.shape_Amount_from_str_in = true ∧ Gen.shape_SignedAmount_from_str_in = true := by decide
+    Gen.amtParseMul = some .checked_mul ∧ Gen.amtParseAdd = some .checked_add ∧ Gen.amtRescaleMul = some .checked_mul := by decide
 
-/-- **the model's overflow tests ARE the std methods named in the source.** Evaluating the methods the translator read at the
-three arithmetic sites (on u64, `Model/StdInt`) gives exactly the comparisons `10·v > 2^64−1`, `10·v + d > 2^64−1` that
-`parseLoop` and `rescale` use — for every accumulator value of the type and every digit. With a `wrapping_*` /
-`saturating_*` method at a site this statement is false (e.g. `v = 2^63`, where `wrapping_mul` returns `2^64·5 mod 2^64 = 0`) -/
+/-- **the std methods of the three sites compute the model's overflow tests.** Evaluating the methods `Gen` names at the
+three arithmetic sites (on u64, `Model/StdInt`) gives exactly the comparisons `10·v > 2^64−1`, `10·v + d > 2^64−1` — for every
+accumulator value of the type and every digit. With a `wrapping_*` / `saturating_*` method at a site this statement is false (e.g.
+`v = 2^63`, where `wrapping_mul` returns `2^64·5 mod 2^64 = 0`). `C15_loop_uses_gen_steps` / `C15_rescale_uses_gen_step` below
+connect the two step functions to `parseLoop` / `rescale`, which the parse theorems are about -/
 theorem C15_checked_steps (v dgt : Nat) (hv : v ≤ U64MAX) (hd : dgt ≤ 9) :
     genDigitStep v dgt = (if 10 * v > U64MAX then none else if 10 * v + dgt > U64MAX then none else some ((10 * v + dgt : Nat) : Int)) ∧
     genRescaleStep v = (if 10 * v > U64MAX then none else some ((10 * v : Nat) : Int)) := by
@@ -309,6 +334,51 @@ theorem C15_checked_steps (v dgt : Nat) (hv : v ≤ U64MAX) (hd : dgt ≤ 9) :
       rw [if_pos this, if_neg h1]
       congr 1
 
+/-- **`parseLoop` IS the generated digit step.** One iteration of the model's digit loop on a digit `c` is: evaluate the std methods
+named at the first two sites (`genDigitStep`), `TooBig` when they refuse, otherwise continue with their result and the decimal
+counter — so the loop the parse theorems are about uses the regenerated methods, not a re-typed copy of them -/
+theorem C15_loop_uses_gen_steps (c : UInt8) (cs : Bytes) (v : Nat) (d : Option Nat) (md : Nat) (hc : isDigit c = true) (hv : v ≤ U64MAX) :
+    parseLoop (c :: cs) v d md =
+      match genDigitStep v (c.toNat - 0x30) with
+      | none => .error .tooBig
+      | some x =>
+        match d with
+        | none => parseLoop cs x.toNat none md
+        | some k => if k < md then parseLoop cs x.toNat (some (k + 1)) md else .error .tooPrecise := by
+  have hd : c.toNat - 0x30 ≤ 9 := by
+    simp only [isDigit, Bool.and_eq_true, decide_eq_true_eq] at hc; omega
+  rw [(C15_checked_steps v (c.toNat - 0x30) hv hd).1]
+  cases d with
+  | none =>
+    simp only [parseLoop, hc, if_true]
+    by_cases h1 : 10 * v > U64MAX
+    · rw [if_pos h1, if_pos h1]
+    · rw [if_neg h1, if_neg h1]
+      by_cases h2 : 10 * v + (c.toNat - 0x30) > U64MAX
+      · rw [if_pos h2, if_pos h2]
+      · rw [if_neg h2, if_neg h2]
+        simp only [Int.toNat_natCast]
+  | some k =>
+    simp only [parseLoop, hc, if_true]
+    by_cases h1 : 10 * v > U64MAX
+    · rw [if_pos h1, if_pos h1]
+    · rw [if_neg h1, if_neg h1]
+      by_cases h2 : 10 * v + (c.toNat - 0x30) > U64MAX
+      · rw [if_pos h2, if_pos h2]
+      · rw [if_neg h2, if_neg h2]
+        simp only [Int.toNat_natCast]
+
+/-- **`rescale` IS the generated rescale step**: one iteration evaluates the std method named at the third site -/
+theorem C15_rescale_uses_gen_step (n v : Nat) (hv : v ≤ U64MAX) :
+    rescale (n + 1) v = match genRescaleStep v with | none => .error .tooBig | some x => rescale n x.toNat := by
+  rw [(C15_checked_steps v 0 hv (by omega)).2]
+  have hl : rescale (n + 1) v = if 10 * v > U64MAX then .error .tooBig else rescale n (10 * v) := by simp only [rescale]
+  rw [hl]
+  by_cases h1 : 10 * v > U64MAX
+  · rw [if_pos h1, if_pos h1]
+  · rw [if_neg h1, if_neg h1]
+    simp only [Int.toNat_natCast]
+
 /-- the formulation does exclude a wrapping site: with `wrapping_mul` the digit step at `v = 2^63` would return a value
 (test of the statement, not a theorem about /repo) -/
 example : (StdOp.wrapping_mul.eval TyU64 10 (2 ^ 63)) = some 0 ∧ (StdOp.checked_mul.eval TyU64 10 (2 ^ 63)) = none := by decide
@@ -322,5 +392,12 @@ example : toStringIn true (-(2 ^ 63)) .Monero = "-9223372.036854775808".toList.m
 example : ∃ a : Int, a.natAbs ≤ 2 ^ 63 - 1 ∧ a < 0 := ⟨-1, by decide, by decide⟩
 example : ∃ a : Int, a.natAbs < 2 ^ 64 ∧ a.natAbs > 2 ^ 63 - 1 ∧ 0 ≤ a := ⟨2 ^ 63, by decide, by decide, by decide⟩
 example : ∃ a : Int, a.natAbs < 2 ^ 64 ∧ a.natAbs > 2 ^ 63 - 1 ∧ a < 0 := ⟨-(2 ^ 63), by decide, by decide, by decide⟩
+/- the out-of-range hypotheses are satisfiable INSIDE the two types: an `Amount` above `i64::MAX` (unsigned) and `i64::MIN` (signed) -/
+example : ∃ a : Int, (false = false → 0 ≤ a) ∧ a.natAbs < 2 ^ 64 ∧ a.natAbs > 2 ^ 63 - 1 ∧ TyU64.fits a := ⟨2 ^ 64 - 1, by decide, by decide, by decide, by decide⟩
+example : ∃ a : Int, a.natAbs < 2 ^ 64 ∧ a.natAbs > 2 ^ 63 - 1 ∧ TyI64.fits a := ⟨-(2 ^ 63), by decide, by decide, by decide⟩
+/- `C15_parse_exact`: both sign clauses are met non-trivially (a `-` literal with a negative result; `-0` with result 0) -/
+example : fromStrIn true [0x2d, 0x35] .Piconero = .ok (-5) := (C15_parse_iff _ _ _ _).mpr (by decide)
+example : fromStrIn true [0x2d, 0x30] .Piconero = .ok 0 := (C15_parse_iff _ _ _ _).mpr (by decide)
+example : isDigit 0x37 = true ∧ (0 : Nat) ≤ U64MAX := by decide
 
 end C15
